@@ -261,7 +261,8 @@ def mentions_derivative(case):
     return bool(d.get('mentions_derivative'))
 
 
-KNOWN_PREDICATES = {'get_value_definition_mentions_derivative': mentions_derivative}
+# F9 was repaired by a fix: commit in /repo; nothing is suppressed any more
+KNOWN_PREDICATES = {}
 
 
 def run(ctx):
